@@ -94,6 +94,7 @@ type SchedSpec struct {
 }
 
 type Plan struct {
+	Bulk     bool                `json:"bulk,omitempty"` // several hundred keys (C07 Import cells)
 	Prop     string              `json:"prop"`
 	Profile  string              `json:"profile"`
 	Nodes    []NodeSpec          `json:"nodes"`
@@ -397,6 +398,11 @@ func C07Cells() []string {
 					}
 					cells = append(cells, sc+"/"+m+"/"+mode+"/"+occ)
 				}
+				if m == "Import" && (mode == "reset" || mode == "drop-request") {
+					// persistent: every Import from the second one on fails (the receiver stays unable
+					// to take more keys); only a transfer made of several Imports ever gets that far
+					cells = append(cells, sc+"/"+m+"/"+mode+"/2nd+")
+				}
 			}
 		}
 	}
@@ -413,6 +419,13 @@ func genC07(p *Plan, r *simrt.Rand, seed uint64, hashes []uint64) {
 	parts := strings.Split(cell, "/")
 	scenario, rpc, mode, occ := parts[0], parts[1], parts[2], parts[3]
 	n := 3 + r.Intn(2)
+	bulk := strings.HasPrefix(rpc, "Import") && (r.Chance(0.6) || occ == "2nd+")
+	if bulk {
+		// several hundred keys to hand over: a transfer that is split into parts has a second, third ...
+		// Import to lose (with one Import per transfer the later occurrences simply do not exist)
+		p.Keys, hashes = keyNames(700 + r.Intn(400))
+		p.Bulk = true
+	}
 	ids := genIDs(r, n+1, hashes)
 	p.Nodes = p.Nodes[:0]
 	for i := 0; i < n+1; i++ {
@@ -434,10 +447,10 @@ func genC07(p *Plan, r *simrt.Rand, seed uint64, hashes []uint64) {
 		if rpc[i+1] == '2' {
 			nth = 2
 		}
-	} else if occ == "2nd" {
+	} else if occ == "2nd" || occ == "2nd+" {
 		nth = 2
 	}
-	f := &simnet.Targeted{Method: method, Nth: nth}
+	f := &simnet.Targeted{Method: method, Nth: nth, Repeat: occ == "2nd+"}
 	switch mode {
 	case "reset":
 		f.Mode = simnet.FaultReset
@@ -459,6 +472,10 @@ func genC07(p *Plan, r *simrt.Rand, seed uint64, hashes []uint64) {
 	// one client loads the ring before the change
 	cs := ClientSpec{Start: time.Duration(n)*4*p.Stab + 2*time.Second}
 	for k := range p.Keys {
+		if bulk {
+			cs.Ops = append(cs.Ops, COp{Gap: 5 * time.Millisecond, Kind: "put", Key: k, Entry: r.Intn(n), Retry: true})
+			continue
+		}
 		cs.Ops = append(cs.Ops, COp{Gap: 50 * time.Millisecond, Kind: "put", Key: k, Entry: r.Intn(n), Retry: true})
 		cs.Ops = append(cs.Ops, COp{Gap: 50 * time.Millisecond, Kind: "pappend", Key: k, Arg: r.Intn(3), Entry: r.Intn(n), Retry: true})
 	}
